@@ -34,6 +34,7 @@ RULE = ("own legs: %d operation batteries (vectors, inplace_vector, strings in b
         "batteries x 3 seeds evaluated by GCC's constant evaluator at compile time (UB there = the harness does not build) and "
         "compared with their run-time values; %d object kinds default-initialised over 0xFF-poisoned storage; to_floating_point on every "
         "view of length <= 3 (9-character alphabet, flush against the end of an exact-size heap buffer) + seeded random longer ones; "
+        "strtod / strtof / atof on every C string of length <= 3 whose terminator is the last byte of an exact-size heap buffer; "
         "from_floating_point for exactly representable values x precisions 0..6 x every span length around the exact fit (exact-size heap buffers); "
         "aggregated legs: the cases of the listed packages' generators re-run under the sanitizer variant the package declares (for the "
         "packages that declare none: the package's main harness built with ASan+UBSan by C02) "
@@ -105,6 +106,11 @@ def _tofloat_cases(tier, rng):
             for off in range(0, n + 1):
                 ln = n - off                      # flush against the end of the allocation
                 out.append("tofloat d %d %s %d %d" % (n, " ".join(map(str, cs)), off, ln))
+    # the char const* front ends: the terminator is the last byte of the exact-size buffer
+    for n in range(0, 4):
+        for cs in itertools.product(alpha[:8], repeat=n):
+            for off in range(0, n + 1):
+                out.append(" ".join(["strtod", str(n + 1)] + [str(c) for c in cs] + ["0", str(off)]))
     nrand = 1500 if tier == "quick" else 40000
     for _ in range(nrand):
         n = rng.randint(1, 12)
